@@ -31,12 +31,20 @@ type R = Result<(), Fail>;
 
 // ----------------------------------------------------------------- scheduler
 
+struct Forced {
+    prefix: Vec<usize>,
+    pos: usize,
+    /// (choice taken, number of alternatives) at every scheduling decision
+    record: Vec<(usize, usize)>,
+}
 struct Inner {
     current: Option<usize>,
     done: Vec<bool>,
     rng: Rng,
     switch_den: u32,
     trace: Vec<(u16, u16)>,
+    /// enumeration mode: follow `prefix`, then always continue the yielding thread
+    forced: Option<Forced>,
 }
 pub struct Sched {
     inner: Mutex<Inner>,
@@ -52,7 +60,7 @@ static STRESS_SEED: AtomicU64 = AtomicU64::new(0);
 impl Sched {
     fn new(n: usize, rng: Rng, switch_den: u32) -> Sched {
         Sched {
-            inner: Mutex::new(Inner { current: None, done: vec![false; n], rng, switch_den, trace: Vec::new() }),
+            inner: Mutex::new(Inner { current: None, done: vec![false; n], rng, switch_den, trace: Vec::new(), forced: None }),
             cv: Condvar::new(),
         }
     }
@@ -60,6 +68,21 @@ impl Sched {
         let runnable: Vec<usize> = inner.done.iter().enumerate().filter(|(_, d)| !**d).map(|(i, _)| i).collect();
         if runnable.is_empty() {
             inner.current = None;
+            return;
+        }
+        if let Some(f) = inner.forced.as_mut() {
+            // deterministic order with the yielding thread first: choice 0 = keep running it
+            let mut order = runnable.clone();
+            if let Some(m) = me {
+                if let Some(p) = order.iter().position(|x| *x == m) {
+                    order.remove(p);
+                    order.insert(0, m);
+                }
+            }
+            let choice = if f.pos < f.prefix.len() { f.prefix[f.pos].min(order.len() - 1) } else { 0 };
+            f.record.push((choice, order.len()));
+            f.pos += 1;
+            inner.current = Some(order[choice]);
             return;
         }
         // keep running the same worker with probability 1 - 1/switch_den
@@ -314,6 +337,176 @@ fn gen_ops(rng: &mut Rng, n: usize, action_id: &mut u64, lazy_ok: bool) -> Vec<O
     v
 }
 
+
+/// The oracle over one concurrent phase: per-call postconditions, pairwise distinctness, then maintain
+/// and the set / exactly-once equations. Updates `initial` / `stale` for the next phase.
+#[allow(clippy::too_many_arguments)]
+fn judge_round(
+    rep: &mut Report,
+    prop: &str,
+    world: &mut World,
+    shared: &Shared,
+    records: &[Vec<Rec>],
+    initial: &mut Vec<Entity>,
+    stale: &mut Vec<Entity>,
+    free_at_start: usize,
+    max_id_at_start: usize,
+) -> R {
+    let mut created: Vec<Entity> = Vec::new();
+    let mut delete_requested: BTreeSet<Entity> = BTreeSet::new();
+    let mut queued: Vec<u64> = Vec::new();
+    let mut lazy_inserts: Vec<(Entity, u64)> = Vec::new();
+    let mut lazy_created: Vec<(Entity, u64)> = Vec::new();
+    let mut joins: Vec<(Vec<Entity>, Vec<Entity>)> = Vec::new();
+    for (t, recs) in records.iter().enumerate() {
+        for r in recs {
+            match r {
+                Rec::Created(e, alive) => {
+                    if !*alive {
+                        return Err(("C10", format!("thread {}: Entities::is_alive({:?}) was false right after the creation call returned", t, e)));
+                    }
+                    created.push(*e);
+                }
+                Rec::LazyCreated(e, tag) => {
+                    created.push(*e);
+                    lazy_created.push((*e, *tag));
+                }
+                Rec::Deleted(e, ok) => {
+                    if !*ok {
+                        return Err(("C10", format!("thread {}: Entities::delete({:?}) failed although the entity was alive", t, e)));
+                    }
+                    delete_requested.insert(*e);
+                }
+                Rec::Alive(e, got, exp) => {
+                    if got != exp {
+                        return Err(("C10", format!("thread {}: Entities::is_alive({:?}) = {} during the concurrent phase, expected {}", t, e, got, exp)));
+                    }
+                }
+                Rec::Joined(got, must) => joins.push((got.clone(), must.clone())),
+                Rec::LazyQueued(id) => queued.push(*id),
+                Rec::LazyInsertQueued(e, tag) => lazy_inserts.push((*e, *tag)),
+            }
+        }
+    }
+    // handle uniqueness is C01's statement as much as C10's
+    let uniq_tag: &'static str = if prop == "C01" { "C01" } else { "C10" };
+    rep.bump("creates_observed", created.len() as u64);
+    rep.bump("deletes_observed", delete_requested.len() as u64);
+    // pairwise distinct handles, distinct from everything seen before, distinct indices among the not-yet-dead
+    let mut seen: BTreeSet<Entity> = initial.iter().chain(stale.iter()).cloned().collect();
+    let mut idx: BTreeMap<u32, Entity> = initial.iter().map(|e| (e.id(), *e)).collect();
+    for e in &created {
+        if !seen.insert(*e) {
+            return Err((uniq_tag, format!("handle {:?} was returned twice (to two threads, or it equals an earlier handle)", e)));
+        }
+        if let Some(o) = idx.insert(e.id(), *e) {
+            return Err((uniq_tag, format!("two entities that are not yet dead share index {}: {:?} and {:?}", e.id(), o, e)));
+        }
+    }
+    // C17 under concurrency: a never-used index may only be taken once the free list is exhausted,
+    // so exactly min(#creations, #free entries at the start) creations must have recycled an index
+    let recycled = created.iter().filter(|e| (e.id() as usize) < max_id_at_start).count();
+    let want = created.len().min(free_at_start);
+    if recycled != want {
+        return Err((
+            "C17",
+            format!(
+                "{} concurrent creations with {} free-list entries available recycled only {} indices: a never-used index was taken while a dead one was still free (new indices {:?})",
+                created.len(),
+                free_at_start,
+                recycled,
+                created.iter().map(|e| e.id()).filter(|i| (*i as usize) >= max_id_at_start).take(8).collect::<Vec<_>>()
+            ),
+        ));
+    }
+    rep.bump("concurrent_recycling_checks", 1);
+    let all_possible: BTreeSet<Entity> = initial.iter().chain(created.iter()).cloned().collect();
+    for (got, must) in &joins {
+        let gs: BTreeSet<Entity> = got.iter().cloned().collect();
+        if gs.len() != got.len() {
+            return Err(("C10", "a concurrent (&entities).join() yielded an entity twice".to_string()));
+        }
+        if let Some(m) = must.iter().find(|m| !gs.contains(m)) {
+            return Err(("C10", format!("a concurrent (&entities).join() missed {:?}, which was alive for the joining thread", m)));
+        }
+        if let Some(x) = got.iter().find(|x| !all_possible.contains(x)) {
+            return Err(("C10", format!("a concurrent (&entities).join() yielded {:?}, which no creation call ever returned", x)));
+        }
+    }
+    // quiescent point: allocator invariants before maintain
+    let occ: BTreeSet<u32> = idx.keys().cloned().collect();
+    let pd: BTreeSet<u32> = delete_requested.iter().map(|e| e.id()).collect();
+    crate::model::check_allocator(&world.entities().verif_snapshot(), &occ, &pd).map_err(|(_, m)| ("C10", format!("after the concurrent phase: {}", m)))?;
+    shared.exec_log.lock().unwrap().clear();
+    world.maintain();
+    let alive_now: BTreeSet<Entity> = {
+        let e = world.entities();
+        (&e).join().collect()
+    };
+    let expect: BTreeSet<Entity> = all_possible.difference(&delete_requested).cloned().collect();
+    if alive_now != expect {
+        let missing: Vec<&Entity> = expect.difference(&alive_now).take(6).collect();
+        let extra: Vec<&Entity> = alive_now.difference(&expect).take(6).collect();
+        return Err(("C10", format!("after maintain the alive set is not initial + created - delete-requested: missing {:?}, unexpected {:?}", missing, extra)));
+    }
+    for e in &expect {
+        if !world.is_alive(*e) {
+            return Err(("C10", format!("after maintain {:?} is not alive for World::is_alive", e)));
+        }
+    }
+    for e in &delete_requested {
+        if world.entities().is_alive(*e) {
+            return Err(("C10", format!("after maintain the deleted entity {:?} is still alive", e)));
+        }
+    }
+    // every queued action ran exactly once
+    let mut log = shared.exec_log.lock().unwrap().clone();
+    log.sort();
+    queued.sort();
+    if log != queued {
+        return Err(("C10", format!("queued lazy actions {:?} but executed {:?}", queued.iter().take(12).collect::<Vec<_>>(), log.iter().take(12).collect::<Vec<_>>())));
+    }
+    {
+        // per target: for every thread, the last tag it queued (queue order within a thread is
+        // program order; across threads any order is allowed)
+        let tags = world.read_storage::<Tag>();
+        let mut last_per_thread: BTreeMap<Entity, BTreeMap<usize, u64>> = BTreeMap::new();
+        for (t, recs) in records.iter().enumerate() {
+            for r in recs {
+                match r {
+                    Rec::LazyCreated(e, tag) | Rec::LazyInsertQueued(e, tag) => {
+                        last_per_thread.entry(*e).or_default().insert(t, *tag);
+                    }
+                    _ => {}
+                }
+            }
+        }
+        let _ = (&lazy_created, &lazy_inserts);
+        for (e, per) in last_per_thread {
+            let allowed: Vec<u64> = per.values().cloned().collect();
+            if expect.contains(&e) {
+                match tags.get(e) {
+                    Some(Tag(t)) if allowed.contains(t) => {}
+                    other => {
+                        return Err((
+                            "C10",
+                            format!("lazy insert / lazily built component for {:?} lost: component after maintain is {:?}, the last tags queued per thread are {:?}", e, other, allowed),
+                        ))
+                    }
+                }
+            } else if tags.get(e).is_some() {
+                return Err(("C10", format!("lazy insert was applied to dead entity {:?}", e)));
+            }
+        }
+    }
+    let occ: BTreeSet<u32> = expect.iter().map(|e| e.id()).collect();
+    crate::model::check_allocator(&world.entities().verif_snapshot(), &occ, &BTreeSet::new()).map_err(|(_, m)| ("C10", format!("after maintain: {}", m)))?;
+    // next round starts from the new live set
+    stale.extend(delete_requested.iter().cloned());
+    *initial = expect.into_iter().collect();
+    Ok(())
+}
+
 fn run_case(rep: &mut Report, case: u64) {
     let cfg = rep.cfg.clone();
     let mut rng = derive(cfg.seed, &[hash_str("conc"), case]);
@@ -430,162 +623,7 @@ fn run_case(rep: &mut Report, case: u64) {
         for (t, p) in &sched_trace {
             sig.push(((*t as u64) << 16) | *p as u64);
         }
-        // ---------------- oracle over the recorded history ----------------
-        let r: R = (|| {
-            let mut created: Vec<Entity> = Vec::new();
-            let mut delete_requested: BTreeSet<Entity> = BTreeSet::new();
-            let mut queued: Vec<u64> = Vec::new();
-            let mut lazy_inserts: Vec<(Entity, u64)> = Vec::new();
-            let mut lazy_created: Vec<(Entity, u64)> = Vec::new();
-            let mut joins: Vec<(Vec<Entity>, Vec<Entity>)> = Vec::new();
-            for (t, recs) in records.iter().enumerate() {
-                for r in recs {
-                    match r {
-                        Rec::Created(e, alive) => {
-                            if !*alive {
-                                return Err(("C10", format!("thread {}: Entities::is_alive({:?}) was false right after the creation call returned", t, e)));
-                            }
-                            created.push(*e);
-                        }
-                        Rec::LazyCreated(e, tag) => {
-                            created.push(*e);
-                            lazy_created.push((*e, *tag));
-                        }
-                        Rec::Deleted(e, ok) => {
-                            if !*ok {
-                                return Err(("C10", format!("thread {}: Entities::delete({:?}) failed although the entity was alive", t, e)));
-                            }
-                            delete_requested.insert(*e);
-                        }
-                        Rec::Alive(e, got, exp) => {
-                            if got != exp {
-                                return Err(("C10", format!("thread {}: Entities::is_alive({:?}) = {} during the concurrent phase, expected {}", t, e, got, exp)));
-                            }
-                        }
-                        Rec::Joined(got, must) => joins.push((got.clone(), must.clone())),
-                        Rec::LazyQueued(id) => queued.push(*id),
-                        Rec::LazyInsertQueued(e, tag) => lazy_inserts.push((*e, *tag)),
-                    }
-                }
-            }
-            // handle uniqueness is C01's statement as much as C10's
-            let uniq_tag: &'static str = if cfg.prop == "C01" { "C01" } else { "C10" };
-            rep.bump("creates_observed", created.len() as u64);
-            rep.bump("deletes_observed", delete_requested.len() as u64);
-            // pairwise distinct handles, distinct from everything seen before, distinct indices among the not-yet-dead
-            let mut seen: BTreeSet<Entity> = initial.iter().chain(stale.iter()).cloned().collect();
-            let mut idx: BTreeMap<u32, Entity> = initial.iter().map(|e| (e.id(), *e)).collect();
-            for e in &created {
-                if !seen.insert(*e) {
-                    return Err((uniq_tag, format!("handle {:?} was returned twice (to two threads, or it equals an earlier handle)", e)));
-                }
-                if let Some(o) = idx.insert(e.id(), *e) {
-                    return Err((uniq_tag, format!("two entities that are not yet dead share index {}: {:?} and {:?}", e.id(), o, e)));
-                }
-            }
-            // C17 under concurrency: a never-used index may only be taken once the free list is exhausted,
-            // so exactly min(#creations, #free entries at the start) creations must have recycled an index
-            let recycled = created.iter().filter(|e| (e.id() as usize) < max_id_at_start).count();
-            let want = created.len().min(free_at_start);
-            if recycled != want {
-                return Err((
-                    "C17",
-                    format!(
-                        "{} concurrent creations with {} free-list entries available recycled only {} indices: a never-used index was taken while a dead one was still free (new indices {:?})",
-                        created.len(),
-                        free_at_start,
-                        recycled,
-                        created.iter().map(|e| e.id()).filter(|i| (*i as usize) >= max_id_at_start).take(8).collect::<Vec<_>>()
-                    ),
-                ));
-            }
-            rep.bump("concurrent_recycling_checks", 1);
-            let all_possible: BTreeSet<Entity> = initial.iter().chain(created.iter()).cloned().collect();
-            for (got, must) in &joins {
-                let gs: BTreeSet<Entity> = got.iter().cloned().collect();
-                if gs.len() != got.len() {
-                    return Err(("C10", "a concurrent (&entities).join() yielded an entity twice".to_string()));
-                }
-                if let Some(m) = must.iter().find(|m| !gs.contains(m)) {
-                    return Err(("C10", format!("a concurrent (&entities).join() missed {:?}, which was alive for the joining thread", m)));
-                }
-                if let Some(x) = got.iter().find(|x| !all_possible.contains(x)) {
-                    return Err(("C10", format!("a concurrent (&entities).join() yielded {:?}, which no creation call ever returned", x)));
-                }
-            }
-            // quiescent point: allocator invariants before maintain
-            let occ: BTreeSet<u32> = idx.keys().cloned().collect();
-            let pd: BTreeSet<u32> = delete_requested.iter().map(|e| e.id()).collect();
-            crate::model::check_allocator(&world.entities().verif_snapshot(), &occ, &pd).map_err(|(_, m)| ("C10", format!("after the concurrent phase: {}", m)))?;
-            shared.exec_log.lock().unwrap().clear();
-            world.maintain();
-            let alive_now: BTreeSet<Entity> = {
-                let e = world.entities();
-                (&e).join().collect()
-            };
-            let expect: BTreeSet<Entity> = all_possible.difference(&delete_requested).cloned().collect();
-            if alive_now != expect {
-                let missing: Vec<&Entity> = expect.difference(&alive_now).take(6).collect();
-                let extra: Vec<&Entity> = alive_now.difference(&expect).take(6).collect();
-                return Err(("C10", format!("after maintain the alive set is not initial + created - delete-requested: missing {:?}, unexpected {:?}", missing, extra)));
-            }
-            for e in &expect {
-                if !world.is_alive(*e) {
-                    return Err(("C10", format!("after maintain {:?} is not alive for World::is_alive", e)));
-                }
-            }
-            for e in &delete_requested {
-                if world.entities().is_alive(*e) {
-                    return Err(("C10", format!("after maintain the deleted entity {:?} is still alive", e)));
-                }
-            }
-            // every queued action ran exactly once
-            let mut log = shared.exec_log.lock().unwrap().clone();
-            log.sort();
-            queued.sort();
-            if log != queued {
-                return Err(("C10", format!("queued lazy actions {:?} but executed {:?}", queued.iter().take(12).collect::<Vec<_>>(), log.iter().take(12).collect::<Vec<_>>())));
-            }
-            {
-                // per target: for every thread, the last tag it queued (queue order within a thread is
-                // program order; across threads any order is allowed)
-                let tags = world.read_storage::<Tag>();
-                let mut last_per_thread: BTreeMap<Entity, BTreeMap<usize, u64>> = BTreeMap::new();
-                for (t, recs) in records.iter().enumerate() {
-                    for r in recs {
-                        match r {
-                            Rec::LazyCreated(e, tag) | Rec::LazyInsertQueued(e, tag) => {
-                                last_per_thread.entry(*e).or_default().insert(t, *tag);
-                            }
-                            _ => {}
-                        }
-                    }
-                }
-                let _ = (&lazy_created, &lazy_inserts);
-                for (e, per) in last_per_thread {
-                    let allowed: Vec<u64> = per.values().cloned().collect();
-                    if expect.contains(&e) {
-                        match tags.get(e) {
-                            Some(Tag(t)) if allowed.contains(t) => {}
-                            other => {
-                                return Err((
-                                    "C10",
-                                    format!("lazy insert / lazily built component for {:?} lost: component after maintain is {:?}, the last tags queued per thread are {:?}", e, other, allowed),
-                                ))
-                            }
-                        }
-                    } else if tags.get(e).is_some() {
-                        return Err(("C10", format!("lazy insert was applied to dead entity {:?}", e)));
-                    }
-                }
-            }
-            let occ: BTreeSet<u32> = expect.iter().map(|e| e.id()).collect();
-            crate::model::check_allocator(&world.entities().verif_snapshot(), &occ, &BTreeSet::new()).map_err(|(_, m)| ("C10", format!("after maintain: {}", m)))?;
-            // next round starts from the new live set
-            stale.extend(delete_requested.iter().cloned());
-            initial = expect.into_iter().collect();
-            Ok(())
-        })();
+        let r = judge_round(rep, &cfg.prop, &mut world, &shared, &records, &mut initial, &mut stale, free_at_start, max_id_at_start);
         if let Err(f) = r {
             failure = Some(f);
             break;
@@ -609,12 +647,158 @@ fn run_case(rep: &mut Report, case: u64) {
     let _ = ledger::take_faults();
 }
 
+/// Small programs whose scheduler-visible interleavings are enumerated exhaustively.
+fn enum_programs() -> Vec<(&'static str, Vec<Vec<Op>>)> {
+    vec![
+        ("create|create", vec![vec![Op::Create], vec![Op::Create]]),
+        ("create,delete_own|create", vec![vec![Op::Create, Op::DeleteOwn(0)], vec![Op::Create]]),
+        ("delete_initial|create", vec![vec![Op::DeleteInitial(0)], vec![Op::Create]]),
+        ("create|delete_initial,is_alive", vec![vec![Op::Create], vec![Op::DeleteInitial(0), Op::IsAliveInitial(0)]]),
+        ("create_iter2|create", vec![vec![Op::CreateIter(2)], vec![Op::Create]]),
+        ("lazy_exec,create|lazy_create", vec![vec![Op::LazyExec(1), Op::Create], vec![Op::LazyCreate(0xC0DE_0002)]]),
+        ("create,join|create", vec![vec![Op::Create, Op::Join], vec![Op::Create]]),
+        ("build_entity|create,is_alive_stale", vec![vec![Op::BuildEntity], vec![Op::Create, Op::IsAliveStale(0)]]),
+        ("create|create|create", vec![vec![Op::Create], vec![Op::Create], vec![Op::Create]]),
+        ("create|create|delete_initial", vec![vec![Op::Create], vec![Op::Create], vec![Op::DeleteInitial(0)]]),
+    ]
+}
+
+/// mode `enumerate`: depth-first enumeration of every schedule the token-passing scheduler can produce
+/// for one small program on one initial allocator state (case = program x setup).
+fn run_enumerate(rep: &mut Report, case: u64) {
+    let cfg = rep.cfg.clone();
+    trace::set_ctx("C10");
+    let progs = enum_programs();
+    let setups: [(usize, usize); 3] = [(1, 0), (1, 1), (2, 2)];
+    let (name, prog) = &progs[(case as usize) % progs.len()];
+    let (n0, nfree) = setups[(case as usize / progs.len()) % setups.len()];
+    let three = prog.len() >= 3;
+    if three && cfg.extra_u64("three", 0) == 0 {
+        rep.cases_run += 1;
+        rep.bump("programs_skipped_in_this_tier", 1);
+        return;
+    }
+    let cap = cfg.extra_u64("cap", 20000);
+    let mut prefix: Vec<usize> = Vec::new();
+    let mut count = 0u64;
+    let mut exhaustive = false;
+    let mut failure: Option<(Fail, Vec<String>)> = None;
+    let mut max_decisions = 0usize;
+    loop {
+        ledger::reset();
+        let mut world = World::new();
+        world.register::<Tag>();
+        let mut initial: Vec<Entity> = world.create_iter().take(n0 + nfree).collect();
+        let mut stale: Vec<Entity> = Vec::new();
+        for _ in 0..nfree {
+            let e = initial.pop().unwrap();
+            world.delete_entity(e).unwrap();
+            stale.push(e);
+        }
+        let shared = Arc::new(Shared { exec_log: Mutex::new(Vec::new()) });
+        let nthreads = prog.len();
+        let sched = Arc::new(Sched::new(nthreads, Rng(1), 1));
+        sched.inner.lock().unwrap().forced = Some(Forced { prefix: prefix.clone(), pos: 0, record: Vec::new() });
+        *SCHED.lock().unwrap() = Some(sched.clone());
+        specs::verif::set_yield_hook(Some(controlled_hook));
+        let snap0 = world.entities().verif_snapshot();
+        let res: Vec<std::thread::Result<Vec<Rec>>> = std::thread::scope(|s| {
+            let handles: Vec<_> = (0..nthreads)
+                .map(|t| {
+                    let sched = sched.clone();
+                    let w = &world;
+                    let sh = shared.clone();
+                    let ops = &prog[t];
+                    let ini = &initial;
+                    let st = &stale;
+                    s.spawn(move || {
+                        TID.with(|x| x.set(Some(t)));
+                        let _g = FinishGuard(sched.clone(), t);
+                        sched.wait_turn(t);
+                        let sc = sched.clone();
+                        worker(w, &sh, ops, ini, st, &move |p| sc.yield_point(t, p))
+                    })
+                })
+                .collect();
+            sched.kick();
+            handles.into_iter().map(|h| h.join()).collect()
+        });
+        specs::verif::set_yield_hook(None);
+        *SCHED.lock().unwrap() = None;
+        let (record, tr) = {
+            let g = sched.inner.lock().unwrap();
+            (g.forced.as_ref().unwrap().record.clone(), g.trace.clone())
+        };
+        count += 1;
+        max_decisions = max_decisions.max(record.len());
+        let mut sig = Sig::default();
+        for (t, p) in &tr {
+            sig.push(((*t as u64) << 16) | *p as u64);
+        }
+        rep.distinct(sig.0 ^ mix(case));
+        let describe = |tr: &[(u16, u16)]| -> Vec<String> {
+            vec![format!("program {} on {} live / {} free-list entries", name, n0, nfree), format!("schedule (thread, point): {:?}", tr)]
+        };
+        let mut records = Vec::new();
+        let mut panicked = None;
+        for r in res {
+            match r {
+                Ok(v) => records.push(v),
+                Err(e) => panicked = Some(e.downcast_ref::<String>().cloned().or_else(|| e.downcast_ref::<&str>().map(|s| s.to_string())).unwrap_or_default()),
+            }
+        }
+        if let Some(m) = panicked {
+            failure = Some((("C10", format!("a worker thread panicked: {}", m)), describe(&tr)));
+            break;
+        }
+        if let Err(f) = judge_round(rep, &cfg.prop, &mut world, &shared, &records, &mut initial, &mut stale, snap0.cache.len(), snap0.max_id) {
+            failure = Some((f, describe(&tr)));
+            break;
+        }
+        // next schedule in depth-first order
+        match (0..record.len()).rev().find(|i| record[*i].0 + 1 < record[*i].1) {
+            Some(i) => {
+                prefix = record[..i].iter().map(|r| r.0).collect();
+                prefix.push(record[i].0 + 1);
+            }
+            None => {
+                exhaustive = true;
+                break;
+            }
+        }
+        if count >= cap {
+            break;
+        }
+    }
+    rep.cases_run += 1;
+    rep.bump("schedules_enumerated", count);
+    rep.max("max_scheduling_decisions_in_one_schedule", max_decisions as u64);
+    if exhaustive {
+        rep.bump("programs_enumerated_exhaustively", 1);
+    } else if failure.is_none() {
+        rep.bump("programs_capped_before_exhaustion", 1);
+    }
+    rep.op(name);
+    if rep.samples.len() < 3 {
+        rep.sample(serde_json::json!({"program": name, "live": n0, "free_list": nfree, "schedules": count, "exhaustive": exhaustive}));
+    }
+    if let Some(((p, msg), hist)) = failure {
+        let s = format!("{}:{}", p, msg.split(':').next().unwrap_or(""));
+        rep.violation(p, case, count as usize, msg, s, &hist);
+    }
+}
+
 pub fn run(rep: &mut Report) {
+    let enumerate = rep.cfg.extra_str("mode", "controlled") == "enumerate";
     for case in rep.cfg.my_cases() {
         if rep.full() {
             break;
         }
-        crate::report::guarded(rep, case, |rep| run_case(rep, case));
+        if enumerate {
+            crate::report::guarded(rep, case, |rep| run_enumerate(rep, case));
+        } else {
+            crate::report::guarded(rep, case, |rep| run_case(rep, case));
+        }
     }
     specs::verif::set_yield_hook(None);
 }
